@@ -201,6 +201,7 @@ func FamilyShape(thorough bool, seed int64) []*Conv {
 		{"rec_slice", "type PFXRL []PFXRL\ntype PFXRM []PFXRM", "PFXRL", "PFXRM"},
 		{"rec_map", "type PFXRMA map[string]PFXRMA\ntype PFXRMB map[string]PFXRMB", "PFXRMA", "PFXRMB"},
 		{"rec_ptr", "type PFXRP *PFXRP\ntype PFXRQ *PFXRQ", "PFXRP", "PFXRQ"},
+		{"rec_mapkey", "type PFXRK map[*PFXRK]bool\ntype PFXRK2 map[*PFXRK2]bool", "PFXRK", "PFXRK2"},
 		{"rec_mutual", "type PFXXA []PFXXB\ntype PFXXB map[string]PFXXA\ntype PFXYA []PFXYB\ntype PFXYB map[string]PFXYA", "PFXXA", "PFXYA"},
 		{"rec_in_struct", "type PFXRL2 []PFXRL2\ntype PFXRM2 []PFXRM2\ntype PFXRS struct {\n\tKids PFXRL2\n\tN int\n}\ntype PFXRT struct {\n\tKids PFXRM2\n\tN int\n}", "PFXRS", "PFXRT"},
 	} {
